@@ -175,7 +175,8 @@ func (c *conn) runOne(ctx context.Context, st *parsedStmt, args []interface{}, r
 			// a failed COMMIT leaves nothing behind: InnoDB rolls the transaction back
 			s.rollbackTxn(c.tx)
 		}
-		if fault.Kill {
+		if fault.Kill || st.class == "rollback" {
+			// a ROLLBACK only fails when the connection is lost: the server then rolls back by itself
 			c.killLocked()
 		}
 	} else {
